@@ -7,6 +7,10 @@ import os
 VERIF = os.path.dirname(os.path.dirname(os.path.abspath(__file__)))
 ids = [json.loads(l)["id"] for l in open(os.path.join(VERIF, "properties.jsonl"))]
 
+TECH = ("TLA+ model of the library (spec/*.tla): TLC exhaustive on the model + TLC-generated behaviours "
+        "replayed on the code + trace validation of the recorded observations in TLC")
+TRUST = ("bounded model (sizes in the evidence file); trusted: TLC, harness/project.py + vocab.py (projection "
+         "through the public API), the driver's mapping of spec calls to API calls")
 CLAIMED = {
     "C03": dict(
         text="(A) TLC checks C03a/b/c exhaustively on the TLA+ transcription of NamespaceManager "
@@ -15,12 +19,43 @@ CLAIMED = {
              "3-call (4-call) model plus seeded random walks is replayed on the real library; "
              "(C) Trace.tla evaluates the same clauses on the recorded observations and compares "
              "the model state after every call (drift).",
-        note="bounded: 3 prefixes, 3 namespace URIs (two nested), 2 locals, 2 scopes; trusted: TLC, "
-             "harness/project.py, vocab.py. Known finding KF-C03-shadow is excluded by a narrow predicate.",
-        technique="TLA+ model of NamespaceManager, TLC exhaustive + TLC-generated behaviours replayed "
-                  "on the code + trace validation in TLC",
+        note=TRUST + ". Known finding KF-C03-shadow is excluded by a narrow predicate.",
         ref="3 C03"),
+    "C05": dict(
+        text="(A) MC_C05: every record kind x construction scheme (masks, representations) x up to 2 follow-up "
+             "calls (add_attributes dict/pairs, set_time, add_asserted_type) with same/different values; the C05 "
+             "clauses hold on the model; (B) all transitions + seeded walks replayed; (C) clauses C05_single, "
+             "_typed, _refuse, _idem, _accumulate, _new evaluated by TLC on the logged records.",
+        note=TRUST + ". Known finding KF-C05-settime-replace (set_time overwrites) excluded by predicate.",
+        ref="3 C05"),
+    "C18": dict(
+        text="(A) IndexCoherent (idmap = scan of records) is an invariant of MC_Con over every insertion path "
+             "(new_record, add_record, update, add_bundle, constructor, unified, flattened); (B)+(C) after every "
+             "replayed call the driver queries get_record in every string spelling, get_records for every class "
+             "and the records copy, and TLC compares them with a scan of the logged record list; QualifiedName "
+             "spellings are explicit GetRecord calls of the model.",
+        note=TRUST, ref="3 C18"),
+    "C09": dict(
+        text="(A)+(B) MC_Con scenario c09: two documents with clashing prefixes and different default namespaces at "
+             "document and bundle level, a bundle sharing an identifier, sequences of update / add_bundle / "
+             "bundle() / flattened(); (C) bag conservation and refusal clauses on the logged projections.",
+        note=TRUST, ref="3 C09"),
+    "C08": dict(
+        text="(A)+(B) MC_Con scenario c08: one identifier on several records of the same / different kinds with "
+             "overlapping, disjoint and conflicting attributes, in a document and in its bundle; unified() on both "
+             "and on results; (C) result = UnifiedSpec(source) (written from the statement), conflict => "
+             "ProvException, exception => conflict, source unchanged.",
+        note=TRUST + ". Known finding KF-unified-registers excluded by predicate.",
+        ref="3 C08"),
+    "C12": dict(
+        text="(A)+(B) MC_Con scenario c12: each deriving operation followed by mutators on either side; (C) frame "
+             "condition on ALL live handles after every call: whatever the call does not own has the same content, "
+             "registered namespaces and default namespace as before.",
+        note=TRUST + ". record.copy() is not yet driven. Known finding KF-unified-registers excluded by predicate.",
+        ref="3 C12"),
 }
+for _c in CLAIMED.values():
+    _c.setdefault("technique", TECH)
 
 NA_REASON = "check not built yet (work in progress, see DESIGN.md section 6)"
 
